@@ -197,7 +197,16 @@ def install(W):
     if _INSTALLED:
         return
     _INSTALLED = True
+    # whichever way workers.py spells it: `from queue import Queue` or `import queue; queue.Queue()`
     W.Queue = CtlQueue
+    if hasattr(W, "queue"):
+        import types
+        shim = types.ModuleType("queue_shim")
+        for n_ in dir(_queue):
+            if not n_.startswith("__"):
+                setattr(shim, n_, getattr(_queue, n_))
+        shim.Queue = CtlQueue
+        W.queue = shim
     _os, _oj = threading.Thread.start, threading.Thread.join
 
     def ctl_start(self):
@@ -250,6 +259,14 @@ def install(W):
     W.Worker.start = ctl_start
     W.Worker.join = ctl_join
     W.Worker.is_alive = ctl_is_alive
+
+
+def inbox_of(worker):
+    """The controlled queue a worker owns, whatever the attribute is called."""
+    for v in vars(worker).values():
+        if isinstance(v, CtlQueue):
+            return v
+    raise AttributeError("worker has no controlled inbox queue")
 
 
 def new_run(chooser):
